@@ -481,7 +481,14 @@ package transport
 //@   ensures [C06:one-query-one-reply] nW == 1 && nR <= 1
 //@   ensures (err == nil) == (r != nil)
 //@   callsite Write: [C06:sends-the-payload] sameSlice(arg1, payload, 0, len(payload))
-//@   callsite ReadMsgFromTCP?: [C06:reply-read-from-that-conn] nW == 1
+//@   callsite ReadMsgFromTCP?: [C06:reply-read-from-that-conn] nW == 1 && arg0 == c.c
+//@   callsite Write: [C06:query-written-to-that-conn] arg0 == c.c
+//@   callsite SetDeadline?: [C06:deadline-on-that-conn] arg0 == c.c
+//@   ghost gRR *dnsmsg.Msg = nil
+//@   ghost gRE error = nil
+//@   aftercall ReadMsgFromTCP?: gRR = ret0
+//@   aftercall ReadMsgFromTCP?: gRE = ret2
+//@   ensures [C06:the-reply-read-is-what-is-returned] nR == 1 ==> r == gRR && err == gRE
 
 // exchangeConnCtx: the caller never puts the connection back itself; only the goroutine that owns the exchange
 // does, after the exchange is over (so a caller that gives up early cannot offer a connection with a reply
